@@ -51,7 +51,7 @@ func MetaRow(r *Region) Row {
 	cells := []KV{
 		{Row: r.Name, Family: []byte("info"), Qualifier: []byte("regioninfo"), Timestamp: 1, Type: TypePut, Value: append([]byte("PBUF"), b...)},
 		{Row: r.Name, Family: []byte("info"), Qualifier: []byte("seqnumDuringOpen"), Timestamp: 1, Type: TypePut, Value: []byte{0, 0, 0, 0, 0, 0, 0, 2}},
-		{Row: r.Name, Family: []byte("info"), Qualifier: []byte("server"), Timestamp: 1, Type: TypePut, Value: []byte(r.Host)},
+		{Row: r.Name, Family: []byte("info"), Qualifier: []byte("server"), Timestamp: 1, Type: TypePut, Value: []byte(metaHostOf(r))},
 		{Row: r.Name, Family: []byte("info"), Qualifier: []byte("serverstartcode"), Timestamp: 1, Type: TypePut, Value: []byte{0, 0, 1, 0, 0, 0, 0, 1}},
 	}
 	return Row{Key: r.Name, Cells: cells}
@@ -279,4 +279,11 @@ func (c *Cluster) serveScan(rs *RS, sc *ServerConn, req *Request, p *pb.ScanRequ
 	c.Trace.Emit("scanResp", "scanner", int(scn.id), "chunk", chunk, "moreInRegion", more, "noMoreResults", cut.NoMoreResults, "closed", closed, "call", callNo)
 	c.Trace.Emit("resp", "conn", sc.ID, "id", int(req.CallID), "exc", "")
 	sc.Send(Response{CallID: req.CallID, Msg: resp, CellBlock: cb})
+}
+
+func metaHostOf(r *Region) string {
+	if r.MetaHost != "" {
+		return r.MetaHost
+	}
+	return r.Host
 }
